@@ -73,14 +73,18 @@ func matchTextTailOnce(text []rune, pattern []rune, failed map[[2]int]bool) tern
 
 	anyRunes := text
 	if 0 < len(searchWord) {
-		textStr := string(text)
-		bidx := strings.Index(textStr, string(searchWord))
+		// The word is searched behind the characters that the underscores in front of it stand for.
+		if len(text) < anyRunesMinLen {
+			return ternary.FALSE
+		}
+		tailStr := string(text[anyRunesMinLen:])
+		bidx := strings.Index(tailStr, string(searchWord))
 		if bidx < 0 {
 			return ternary.FALSE
 		}
 
-		idx := utf8.RuneCountInString(textStr[:bidx])
-		if anyRunesMaxLen < 0 && matchTextTail(text[idx+1:], pattern, failed) == ternary.TRUE {
+		idx := anyRunesMinLen + utf8.RuneCountInString(tailStr[:bidx])
+		if anyRunesMaxLen < 0 && matchTextTail(text[idx+1-anyRunesMinLen:], pattern, failed) == ternary.TRUE {
 			return ternary.TRUE
 		}
 		anyRunes = text[:idx]
